@@ -333,3 +333,18 @@ func (m *memStore) DeleteAllRelationTuples(ctx context.Context, query *relationt
 func (m *memStore) TransactRelationTuples(ctx context.Context, insert []*relationtuple.RelationTuple, delete []*relationtuple.RelationTuple) error {
 	panic("MemStore is read-only")
 }
+
+// ---- mapper dependencies (C16) --------------------------------------------
+
+type symMapperDeps struct {
+	mm  relationtuple.MappingManager
+	cfg *config.Config
+}
+
+func (d *symMapperDeps) MappingManager() relationtuple.MappingManager { return d.mm }
+func (d *symMapperDeps) Config(context.Context) *config.Config        { return d.cfg }
+
+func newMapperDeps(mm relationtuple.MappingManager) *symMapperDeps {
+	verifWorld = &world{shape: &cfgShape{nss: []*namespace.Namespace{{Name: "N"}, {Name: "M"}}}}
+	return &symMapperDeps{mm: mm, cfg: &config.Config{}}
+}
